@@ -44,7 +44,7 @@ var propPlans = []propPlan{
 		NotDecided: "which (M,P) are accepted or rejected (unsigned arithmetic on runtime counters); what the unblocked response contains; telling an absent _HLS_part from _HLS_part=0.",
 		LevelText:  "Wait/wake discipline over all schedules, _HLS_* filtering, delta-update shape and roll-over reaching the open segment."},
 	{ID: "C07", Title: "Close unblocks every request and releases storage",
-		Rules:      []string{"CG0", "L1", "L2", "L3", "L4", "L6", "P4", "P6"},
+		Rules:      []string{"CG0", "L1", "L2", "L3", "L4", "L6", "P3", "P4", "P6"},
 		NotDecided: "'promptly' as a time bound; disk I/O latency under the lock.",
 		LevelText:  "Every waiter leaves on a closed flag that Close sets under the lock before broadcasting; no lock leaks on any path; every owned file is released. Argued sufficient (DESIGN 4, C07) for the sub-statement 'every blocked request completes non-200 after Close, no lock left held, every created file removed' under every interleaving, given monitor semantics."},
 	{ID: "C08", Title: "One writer + concurrent readers",
